@@ -44,11 +44,10 @@ TRUSTED_BASE = [
     'line-atomic interleavings only: a thread switch happens between two source statements of the modelled methods, never inside one '
     '(no bytecode-level preemption); database statements (_init SELECT, INSERT) are single steps',
     'garbage collection = immediate CPython reference counting; weak reference callbacks are not used by the code; OS scheduling is not exhibited',
-    'the proved theorems (C09_*_partial) cover get (hit / miss / missing row / first use), create, expire of a held instance, '
-    'cull (triggered through the counters) and forgetting a result, for any number of threads, programs and schedules, under the '
-    'guard of Model/CacheConcSpec.v (created() not overlapping an entry of the same id that exists or is in flight: a get between its '
-    'miss under the lock and its put); CacheFactory.expireAll and sqlmeta.expireAll are in the model, the correspondence and the '
-    'oracle but outside the proved operation set',
+    'the proved theorems (C09_*_partial) cover every operation of the model (get: hit / miss / missing row / first use; create; '
+    'expire of a held instance; cull triggered through the counters; CacheFactory.expireAll; sqlmeta.expireAll; forgetting a result) for '
+    'any number of threads, programs and schedules, under the guard of Model/CacheConcSpec.v, which excludes one kind of step: the write '
+    'of created() when the cache already has an entry for the new id (open finding created_overwrites_get_miss)',
     'cache=True connections only in the model and theorems (cache=False runs are judged by the oracle only); __setstate__ (unpickling), '
     'destroySelf, sync and _SO_loadValue are outside the operation list',
     'CPython dict iteration over a dict modified without a change of size is not modelled (such runs are counted, not compared)',
@@ -73,7 +72,8 @@ WORLDS = {
 }
 OPS = {
     'get1': ['get', 1], 'get2': ['get', 2], 'get3': ['get', 3], 'get9': ['get', 9], 'getnew': None,
-    'create': ['create'], 'exp0': ['expire', [0, 0]], 'exp1': ['expire', [0, 1]], 'xall': ['xall'], 'mexall': ['mexall'],
+    'create': ['create'], 'exp0': ['expire', [0, 0]], 'exp1': ['expire', [0, 1]], 'exp2': ['expire', [0, 2]],
+    'xall': ['xall'], 'mexall': ['mexall'],
 }
 WORLD_OPS = {
     'fresh': ['get1', 'get9', 'create', 'getnew', 'xall', 'mexall'],
@@ -81,13 +81,13 @@ WORLD_OPS = {
     'weak': ['get1', 'get3', 'create', 'exp0', 'xall', 'mexall'],
     'weakdead': ['get1', 'get2', 'create', 'exp1', 'xall', 'mexall'],
     'unheld': ['get2', 'get3', 'create', 'xall', 'mexall'],
-    'cull': ['get1', 'get3', 'get9', 'create', 'exp0', 'xall'],
+    'cull': ['get1', 'get3', 'get9', 'create', 'exp0', 'exp2', 'xall'],
 }
 
 
 THOROUGH_B3 = {'get1', 'get3', 'get9', 'getnew', 'create', 'exp0'}
 QUICK_B2 = {   # the pairs explored at bound 2 in the quick tier for these worlds (the others at bound 1; thorough: all at 3)
-    'cull': {('get1', 'get3'), ('get3', 'create'), ('create', 'exp0'), ('get1', 'xall')},
+    'cull': {('get1', 'get3'), ('get3', 'create'), ('create', 'exp0'), ('get1', 'xall'), ('get1', 'exp2')},
     'weakdead': {('get1', 'get1'), ('get1', 'get2'), ('get1', 'exp1'), ('get1', 'xall')},
     'unheld': {('get2', 'get2'), ('get2', 'xall'), ('xall', 'xall'), ('create', 'xall')},
 }
@@ -427,105 +427,50 @@ def oracle(c, o):
     return None
 
 
+def _create_and_get_of_row(c, o, row):
+    creates = [(t, k) for t, p in enumerate(c['progs']) for k, x in enumerate(p) if x[0] == 'create'
+               and o['results'][t][k][0] == 'obj' and o['results'][t][k][2] == row]
+    gets = [(t, k) for t, p in enumerate(c['progs']) for k, x in enumerate(p) if x[0] == 'get' and x[1] == row
+            and o['results'][t][k][0] == 'obj' and t not in [u for u, _ in creates]]
+    return creates, gets
+
+
 def classify_by_shape(c, o, f):
-    """The labels of the model are not available (the skeleton of the tree under test differs): recognise the
-    open findings by the operations involved only, so that the replay shows something else than a known race."""
-    kind = f.get('kind')
-    conc = [p for p in c['progs'][1:]]
-    kinds = lambda t: {x[0] for x in c['progs'][t]}
-    allk = set()
-    for p in conc:
-        allk |= {x[0] for x in p}
-    if kind == 'exception' and f.get('exc') == 'RuntimeError':
-        op = c['progs'][f['thread']][f['op']]
-        others = set()
-        for t, p in enumerate(c['progs']):
-            if t != f['thread'] and t != 0:
-                others |= {x[0] for x in p}
-        if op[0] in ('xall', 'mexall') and 'create' in others:
-            return 'created_vs_expireall_iteration'
-        if op[0] == 'mexall' and others & {'xall', 'mexall', 'get', 'expire', 'create'}:
-            return 'getall_unlocked_iteration'
-    if kind in ('identity', 'unreachable'):
-        row = f.get('row')
-        creates = [(t, k) for t, p in enumerate(c['progs']) for k, x in enumerate(p) if x[0] == 'create'
-                   and o['results'][t][k][0] == 'obj' and o['results'][t][k][2] == row]
-        if creates and allk & {'xall', 'mexall'}:
-            return 'created_lost_in_expireall'
-        gets = [(t, k) for t, p in enumerate(c['progs']) for k, x in enumerate(p) if x[0] == 'get' and x[1] == row
-                and t not in [u for u, _ in creates]]
+    """The labels of the model are not available (the skeleton of the tree under test differs, or a cache=False
+    run): recognise the open finding by the operations involved only, so that the replay shows something else
+    than the known race."""
+    if f.get('kind') in ('identity', 'unreachable'):
+        creates, gets = _create_and_get_of_row(c, o, f.get('row'))
         if creates and gets:
             return 'created_overwrites_get_miss'
     return None
 
 
-MISS_REGION = {'F111', 'F112', 'F116', 'F117', 'F118', 'F119', 'F121', 'F122', 'F123', 'F124', 'M951', 'M954', 'SP311', 'P152', 'P153'}
-
-
 def classify(c, o, f):
-    """narrow classifiers: which two statements overlapped"""
+    """The one open finding, recognised narrowly: a get of the row being created registers its own instance
+    (line 153 of put) after the creator's INSERT (main.py, queryInsertID) and before the creator's write in
+    created().  The findings created_vs_expireall_iteration, created_lost_in_expireall (fixed by 6765e29) and
+    getall_unlocked_iteration (fixed by 7ef2364) are no longer classified: they would be violations."""
     if not isinstance(o, dict) or 'trace' not in o:
         return None
-    tl = timeline(o)
-    kind = f.get('kind')
+    if f.get('kind') not in ('identity', 'unreachable'):
+        return None
     if o.get('skeleton') or not c.get('cfg', {}).get('cache', 1):
-        # no model labels (Tie A broken), or the cache=False branches the classifiers below do not name
         return classify_by_shape(c, o, f)
-    pcnow = {}
-    # replay the time line, looking for the overlaps
-    created_in_iter = created_after_loop = False
-    weak_change_in_getall = set()
-    getall_threads = {}
-    miss_before_created = set()       # rows for which a get missed (M951 executed) between INSERT and created of another thread
-    inserted = {}                     # thread -> row id inserted, created not yet executed
-    missed = {}                       # row -> threads that executed M951 for it while an insert of it was pending
-    last_weak = None
-    for n, (t, before, after) in enumerate(tl):
-        st = o['trace'][n][3]
-        others = {u: p for u, p in pcnow.items() if u != t}
-        if before == 'K181':
-            if any(p in ('A252', 'A253') for p in others.values()):
-                created_in_iter = True
-            if any(p in ('A254',) for p in others.values()):
-                created_after_loop = True
-            for u, p in others.items():
-                if p in MISS_REGION:
-                    miss_before_created.add(u)  # decided "miss" under the lock before the creator's unlocked write
-            inserted.pop(t, None)
+    creates, gets = _create_and_get_of_row(c, o, f.get('row'))
+    if not creates or not gets:
+        return None
+    pending = set()          # creators between their INSERT and their write in created()
+    racing = set()           # threads whose put ran while a creator was pending
+    for t, before, after in timeline(o):
         if before == 'C1397':
-            # the id is visible from the next observation of this thread's result; use the programs: next id = max(rows)+number of inserts
-            inserted[t] = True
-        if before == 'P153' and inserted:
-            miss_before_created.add(t)          # registered its own object while the creator had not yet called created()
-        if st is not None:
-            wk = [k for k, a in st['weak']]
-            if last_weak is not None and len(wk) != len(last_weak):
-                for u, p in others.items():
-                    if p in ('L279', 'L280', 'L281'):
-                        weak_change_in_getall.add(u)
-            last_weak = wk
-        pcnow[t] = after
-    if kind == 'exception' and f.get('exc') == 'RuntimeError':
-        op = c['progs'][f['thread']][f['op']]
-        if op[0] in ('xall', 'mexall') and created_in_iter:
-            return 'created_vs_expireall_iteration'
-        if op[0] == 'mexall' and f['thread'] in weak_change_in_getall:
-            return 'getall_unlocked_iteration'
-    if kind == 'exception' and f.get('exc') == 'AttributeError':
-        op = c['progs'][f['thread']][f['op']]
-        if op[0] == 'mexall':
-            return 'getall_dead_weakref'
-    if kind in ('unreachable', 'identity'):
-        row = f.get('row')
-        creates = [(t, k) for t, p in enumerate(c['progs']) for k, x in enumerate(p) if x[0] == 'create'
-                   and o['results'][t][k][0] == 'obj' and o['results'][t][k][2] == row]
-        if creates and created_after_loop:
-            # the created object fell out of the cache (a later get of the row then builds a second instance)
-            return 'created_lost_in_expireall'
-        gets = [(t, k) for t, p in enumerate(c['progs']) for k, x in enumerate(p) if x[0] == 'get' and x[1] == row
-                and o['results'][t][k][0] == 'obj']
-        if creates and gets and any(t in miss_before_created for t, _ in gets):
-            return 'created_overwrites_get_miss'
+            pending.add(t)
+        elif before == 'K181':
+            pending.discard(t)
+        elif before == 'P153' and pending - {t}:
+            racing.add(t)
+    if any(t in racing for t, _ in gets):
+        return 'created_overwrites_get_miss'
     return None
 
 
